@@ -239,25 +239,27 @@ func (s *Set) Intersects(b *Set) bool {
 	return false
 }
 
-// Equal returns true if two sets are equal.
+// Equal returns true if two sets have the same members.
 func (s *Set) Equal(a *Set) bool {
-	lens, lena := s.Len(), a.Len()
-	if lens != lena {
-		return false
-	} else if lens == 0 && lena == 0 {
-		return true
+	// next returns the maximal run of members starting at node (adjacent
+	// intervals are not merged by AddRange) and the node following it.
+	next := func(node *Node) (begin, end rune, rest *Node) {
+		begin, end, rest = node.Begin, node.End, node.Forward
+		for rest.Forward != nil && rest.Begin <= end+1 {
+			end, rest = max(end, rest.End), rest.Forward
+		}
+		return begin, end, rest
 	}
 	x, y := s.Head.Forward, a.Head.Forward
-	for {
-		if x.Begin != y.Begin || x.End != y.End {
+	for x != nil && x.Forward != nil && y != nil && y.Forward != nil {
+		xb, xe, xr := next(x)
+		yb, ye, yr := next(y)
+		if xb != yb || xe != ye {
 			return false
 		}
-		x, y = x.Forward, y.Forward
-		if x == nil && y == nil {
-			break
-		}
+		x, y = xr, yr
 	}
-	return true
+	return (x == nil || x.Forward == nil) == (y == nil || y.Forward == nil)
 }
 
 // Len returns the size of the set.
